@@ -26,6 +26,10 @@ func (cp *CollectingProcess) startTCPServer() {
 			klog.Errorf("Cannot start tls collecting process on %s: %v", cp.address, err)
 			return
 		}
+		// Add to the wait group before the address is published: callers wait for the address
+		// to know that the process is ready, and may call Stop (which waits on the group) right
+		// away.
+		cp.wg.Add(1)
 		cp.updateAddress(listener.Addr())
 		klog.Infof("Started TLS collecting process on %s", cp.netAddress)
 	} else {
@@ -35,11 +39,11 @@ func (cp *CollectingProcess) startTCPServer() {
 			klog.Errorf("Cannot start collecting process on %s: %v", cp.address, err)
 			return
 		}
+		cp.wg.Add(1)
 		cp.updateAddress(listener.Addr())
 		klog.Infof("Start TCP collecting process on %s", cp.netAddress)
 	}
 
-	cp.wg.Add(1)
 	go func(stopCh chan struct{}) {
 		defer cp.wg.Done()
 		for {
